@@ -52,6 +52,9 @@ ASSUMPTIONS = [
     "the guards that skip annihilating permutations in exploit_perm_sym / probe_symmetry are not required: without "
     "them the returned value is the same (0 never matches a non-zero term)",
     "LazyTermMap.evaluate: that every symmetry item is looked up through __getitem__ is not decided",
+    "Term.symmetry completeness is decided for permutations inside one (space, spin) class and for products that permute "
+    "every permutable class at once; products over a proper subset of three or more classes are not enumerated by the "
+    "library (P_ij P_ab of Y^ab_ij Z^pq is a symmetry that is not reported) and are not required",
     "LazyTermMap.__getitem__ (cache lookup through re-ordered / inverted permutation products) is not checked",
 ]
 
@@ -756,7 +759,7 @@ def _mapping(perms):
 def _term_worlds():
     """(name, monomial, index classes {label: (space, spin)}, contracted labels, thorough only)"""
     V = lambda u, l: F("V", u, l)   # noqa: E731
-    o, v = ("occ", ""), ("virt", "")
+    o, v, g = ("occ", ""), ("virt", ""), ("general", "")
     return [
         ("V^ab_ij", (V("ab", "ij"),), dict(i=o, j=o, a=v, b=v), "", False),
         ("V^ab_ij X_k, k with spin", (V("ab", "ij"), F("X", "", "k", "plain")), dict(i=o, j=o, k=("occ", "a"), a=v, b=v), "ij", False),
@@ -765,6 +768,14 @@ def _term_worlds():
         ("W_ik, k with spin", (F("W", "", "ik", "sym"),), dict(i=o, k=("occ", "a")), "", False),
         ("A_i B_j C_k", (F("A", "", "i", "plain"), F("B", "", "j", "plain"), F("C", "", "k", "plain")), dict(i=o, j=o, k=o), "", False),
         ("V^ab_ij Y_i", (V("ab", "ij"), F("Y", "", "i", "plain")), dict(i=o, j=o, a=v, b=v), "i", False),
+        # three and four permutable (space, spin) classes: the factor of a product is the product of all its parts
+        ("Y^ab_ij Z^pq (occ, virt, general)", (F("Y", "ab", "ij"), F("Z", "pq", "")), dict(i=o, j=o, a=v, b=v, p=g, q=g), "pq", False),
+        ("Y^ab_ij S^pq, S symmetric", (F("Y", "ab", "ij"), F("S", "pq", "", "sym")), dict(i=o, j=o, a=v, b=v, p=g, q=g), "ij", False),
+        ("S^ab_ij Z^pq, S symmetric", (F("S", "ab", "ij", "sym"), F("Z", "pq", "")), dict(i=o, j=o, a=v, b=v, p=g, q=g), "", False),
+        ("d^ab_ijkl spin split", (F("d", "ab", "ij"), F("d2", "", "kl")),
+         dict(i=("occ", "a"), j=("occ", "a"), k=("occ", "b"), l=("occ", "b"), a=("virt", "a"), b=("virt", "a")), "kl", False),
+        ("Y^ab_ij Z^pq U_kl (four classes)", (F("Y", "ab", "ij"), F("Z", "pq", ""), F("U", "", "kl")),
+         dict(i=o, j=o, a=v, b=v, p=g, q=g, k=("occ", "b"), l=("occ", "b")), "", False),
         ("V^ab_ij V^ab_kl", (V("ab", "ij"), V("ab", "kl")), dict(i=o, j=o, k=o, l=o, a=v, b=v), "ab", False),
         ("V^ab_ij V^cd_kl", (V("ab", "ij"), V("cd", "kl")), dict(i=o, j=o, k=o, l=o, a=v, b=v, c=v, d=v), "klcd", True),
     ]
@@ -849,9 +860,16 @@ def r10_term_symmetry(ctx, thorough=False):
                 ctx.check("R10c", fn, not outside, f"{what}: only the selected indices are permuted, inside one (space, spin) class",
                           f"{what}: reports {[''.join(map(''.join, pl)) for pl in outside][:4]} which move indices outside the selection "
                           f"{chosen} or across (space, spin) classes", key=f"{name} {sel} selection")
-                missing = sorted(set(exp) - set(got))
+                # the documented family: permutations inside one class and products that permute every class at once
+                permutable = [c for c, g in groups.items() if len(g) > 1]
+
+                def in_family(m):
+                    touched = {classes[x] for x, _y in m}
+                    return len(touched) == 1 or touched == set(permutable)
+                family = {m for m in exp if in_family(m)}
+                missing = sorted(family - set(got))
                 ctx.check("R10c", fn, not missing or bool(bad_sign) or bool(outside),
-                          f"{what}: all {len(exp)} symmetries of the term are reported",
+                          f"{what}: all {len(family)} symmetries of the term that permute one class or every class are reported",
                           f"{what}: the symmetries {missing[:4]} (index mappings) of the term are not reported", key=f"{name} {sel} complete")
     if not thorough:
         ctx.floor("R10c", "worlds x selections of Term.symmetry", n, 18)
@@ -1230,6 +1248,8 @@ def r10a_compare_remainder(ctx):
     cases = [("identical", (1, R), (1, R), False, False, False, 1), ("negated", (-1, R), (1, R), False, False, False, -1),
              ("equal up to contracted names", (1, R2), (1, R), True, False, False, 1),
              ("negated up to contracted names", (-1, R2), (1, R), True, False, False, -1),
+             ("another prefactor", (2, R), (1, R), False, False, False, None),
+             ("another prefactor up to contracted names", (-3, R2), (1, R), True, False, False, None),
              ("different objects", (1, Q), (1, R), False, True, False, None),
              ("different denominators", (1, R2), (1, R), False, False, True, None)]
     for name, t0, t1, alias, split_eri, split_den, want in cases:
